@@ -24,7 +24,7 @@ void __asan_unpoison_memory_region(void const volatile *addr, size_t size);
 
 sim_state_t S;
 int sim_trace_on = 0;
-sim_knobs_t sim_knobs = { 0, 4, 1024 };
+sim_knobs_t sim_knobs = { 0, 4, 1024, 0 };
 void (*sim_on_close_hook)(int fd, int kind) = NULL;
 void (*sim_on_epoll_ctl_hook)(int epfd, int op, int fd, uint32_t events, int ret, int err) = NULL;
 
@@ -453,6 +453,8 @@ void sim_fd_activity(void) { S.fd_gen++; }
 static int fiber_runnable(fiber_t *f) {
 	switch (f->st) {
 	case FB_READY: return 1;
+	case FB_IDLEWAIT:
+		return f->wake_at && S.now >= f->wake_at; /* horizon reached although the system never went idle */
 	case FB_BLOCKED:
 		if (f->wake_at && S.now >= f->wake_at) return 1;
 		if (f->block_epfd >= 0) return f->ep_ready;
@@ -701,6 +703,7 @@ void sim_begin(const plan_t *plan) {
 	}
 	S.rt_offset = (int64_t)item_get(&plan->sched, "rtoff", 1700000000LL) * 1000000000LL;
 	S.hash = 0xcbf29ce484222325ULL;
+	sim_knobs.tolerate_bad_close = 0;
 	sim_seams_begin();
 	/* faults: attached to ops */
 	for (int i = 0; i < plan->nops; i++) {
